@@ -5,6 +5,7 @@ package c11
 // key exactly when its own last completed operation on it was an addition.
 
 import (
+	"sync/atomic"
 	"bytes"
 	"fmt"
 	"sync"
@@ -52,6 +53,7 @@ func rywScenario(name string, clients, cycles int) error {
 	defer func() { _ = vh.Catch(func() { shim.Close() }) }()
 	served := yubiWrap{shim}
 	var viol violation
+	var stop atomic.Bool
 	var wg sync.WaitGroup
 	for g := 0; g < clients; g++ {
 		g := g
@@ -92,21 +94,25 @@ func rywScenario(name string, clients, cycles int) error {
 				}
 				return false, nil
 			}
-			for i := 0; i < cycles && viol.err == nil; i++ {
+			for i := 0; i < cycles && !stop.Load(); i++ {
 				if e := ag.Add(agent.AddedKey{PrivateKey: vh.Key(own), Comment: fmt.Sprintf("g%d", g)}); e != nil {
 					viol.set(vh.Errf("%s: client %d, cycle %d: add failed: %v", name, g, i, e))
+					stop.Store(true)
 					return
 				}
 				if has, e := shows(); e != nil || !has {
 					viol.set(vh.Errf("%s: client %d, cycle %d: its own key, added by a call that had returned, is missing from its listing (err %v): a listing from before its own addition", name, g, i, e))
+					stop.Store(true)
 					return
 				}
 				if e := ag.Remove(vh.SSHPub(own)); e != nil {
 					viol.set(vh.Errf("%s: client %d, cycle %d: remove failed: %v", name, g, i, e))
+					stop.Store(true)
 					return
 				}
 				if has, e := shows(); e != nil || has {
 					viol.set(vh.Errf("%s: client %d, cycle %d: its own key, removed by a call that had returned, is still in its listing (err %v): a listing from before its own removal", name, g, i, e))
+					stop.Store(true)
 					return
 				}
 			}
@@ -116,9 +122,13 @@ func rywScenario(name string, clients, cycles int) error {
 	go func() { wg.Wait(); close(done) }()
 	select {
 	case <-done:
-	case <-time.After(120 * time.Second):
-		return vh.Errf("%s: %d clients x %d cycles did not complete within 120 s", name, clients, cycles)
+	case <-time.After(15 * time.Minute):
+		stop.Store(true)
+		<-done
+		return vh.Errf("%s: %d clients x %d cycles did not complete within 15 minutes", name, clients, cycles)
 	}
+	viol.mu.Lock()
+	defer viol.mu.Unlock()
 	return viol.err
 }
 
@@ -133,10 +143,10 @@ func TestC11ReadYourWrites(t *testing.T) {
 	}
 	cases := []RYWCase{{Scenarios: sc, Clients: 8, Cycles: 150}}
 	if vh.Thorough() {
-		cases = append(cases, RYWCase{Scenarios: sc, Clients: 14, Cycles: 1500})
+		cases = append(cases, RYWCase{Scenarios: sc, Clients: 14, Cycles: 400})
 	}
 	vh.Enumerate(t, vh.Spec[RYWCase]{Property: "C11", Name: "TestC11ReadYourWrites", Exhaustive: true, Journal: true,
-		Rule: "8 clients (thorough: 14), each with a key of its own, run 150 (thorough: 1500) cycles of add - list - remove - list on one shim, directly or through served connections, both upstream modes, with the default listing order, an ordering by bytes and a deliberately slow ordering function (12 scenarios side by side; race detector on). Oracle: a client's listing shows its own key exactly when its own last completed operation on it was the addition - nobody else touches that key, so no sequential order allows anything else",
+		Rule: "8 clients (thorough: 14), each with a key of its own, run 150 (thorough: 400) cycles of add - list - remove - list on one shim, directly or through served connections, both upstream modes, with the default listing order, an ordering by bytes and a deliberately slow ordering function (12 scenarios side by side; race detector on). Oracle: a client's listing shows its own key exactly when its own last completed operation on it was the addition - nobody else touches that key, so no sequential order allows anything else",
 		Exec: func(c RYWCase) (vh.Outcome, error) {
 			out := vh.Outcome{NonTrivial: true}
 			errs := make([]error, len(c.Scenarios))
